@@ -218,8 +218,11 @@ def _group1_chunk(fam, kfs):
             except Exception as ex:
                 bad, detail = True, f'{formula}: emitted `{code}` raises {type(ex).__name__}: {ex} for {env}'
             if not bad:
-                conds.append((name, 'spurious', 'value-tier model not reproduced natively: ' + str(detail)))
-                cnt['inconclusive'] += 1
+                if region_of(attrs, kfs) is not None:
+                    cnt['unreproduced_in_known_region'] = cnt.get('unreproduced_in_known_region', 0) + 1     # trees differ inside a known region; this model (text concatenation is uninterpreted) did not replay
+                else:
+                    conds.append((name, 'spurious', 'value-tier model not reproduced natively: ' + str(detail)))
+                    cnt['inconclusive'] += 1
                 continue
         ki = region_of(attrs, kfs)
         if ki is not None:
@@ -253,7 +256,7 @@ def group1(report, tier, seed):
             continue
         report.queries += r['queries']
         for k, v in r['cnt'].items():
-            cnt[k] += v
+            cnt[k] = cnt.get(k, 0) + v
         for ki, fs in r['hits'].items():
             hits.setdefault(ki, []).extend(fs)
         for (cname, verdict, detail) in r['conds']:
